@@ -154,19 +154,19 @@ m("c05-swallow-constructor-error", "C05", "daemon/core/config.py",
 m("c05-construct-twice", "C05", "daemon/core/config.py", "                    if isinstance(prev_item, Partial):  # got form __type__\n                        prev_item = prev_item.__construct__()", "                    if isinstance(prev_item, Partial):  # got form __type__\n                        prev_item.__construct__()\n                        prev_item = prev_item.__construct__()")
 m("c05-kwargs-order-lost", "C05", "daemon/config/mapping.py", "        mapping = {**mapping, **kwargs}", "        mapping = {**kwargs, **{k: v for k, v in mapping.items() if k != 'name'}}")
 # ---- C18
-m("c18-full-loader", "C18", "daemon/core/config.py", "from yaml import SafeLoader, BaseLoader, SequenceNode\n", "from yaml import FullLoader as SafeLoader, BaseLoader, SequenceNode\n")
-m("c18-unsafe-loader", "C18", "daemon/core/config.py", "from yaml import SafeLoader, BaseLoader, SequenceNode\n", "from yaml import UnsafeLoader as SafeLoader, BaseLoader, SequenceNode\n")
+m("c18-full-loader", "C18", "daemon/core/config.py", "from yaml import SafeLoader, BaseLoader, SequenceNode, MappingNode\n", "from yaml import FullLoader as SafeLoader, BaseLoader, SequenceNode, MappingNode\n")
+m("c18-unsafe-loader", "C18", "daemon/core/config.py", "from yaml import SafeLoader, BaseLoader, SequenceNode, MappingNode\n", "from yaml import UnsafeLoader as SafeLoader, BaseLoader, SequenceNode, MappingNode\n")
 m("c18-call-with-yaml-loader", "C18", "daemon/core/config.py", "            loader=COBalDLoader,  # type: ignore\n            plugins=config_plugins,", "            loader=__import__('yaml').Loader,\n            plugins=config_plugins,")
-m("c18-unknown-tags-ignored", "C18", "daemon/core/config.py", '''        super().flatten_mapping(node)
+m("c18-unknown-tags-ignored", "C18", "daemon/core/config.py", '''                    pending.append((value_node, False))
 
-''', '''        super().flatten_mapping(node)
+''', '''                    pending.append((value_node, False))
 
 
 COBalDLoader.add_multi_constructor("!", lambda loader, suffix, node: None)
 ''')
-m("c18-python-name-fallback", "C18", "daemon/core/config.py", '''        super().flatten_mapping(node)
+m("c18-python-name-fallback", "C18", "daemon/core/config.py", '''                    pending.append((value_node, False))
 
-''', '''        super().flatten_mapping(node)
+''', '''                    pending.append((value_node, False))
 
 
 def _by_name(loader, suffix, node):
@@ -176,9 +176,9 @@ def _by_name(loader, suffix, node):
 
 COBalDLoader.add_multi_constructor("tag:yaml.org,2002:python/name:", _by_name)
 ''')
-m("c18-safe-typed-variants", "C18", "daemon/core/config.py", '''        super().flatten_mapping(node)
+m("c18-safe-typed-variants", "C18", "daemon/core/config.py", '''                    pending.append((value_node, False))
 
-''', '''        super().flatten_mapping(node)
+''', '''                    pending.append((value_node, False))
 
 
 COBalDLoader.add_constructor("tag:yaml.org,2002:python/tuple", lambda loader, node: tuple(loader.construct_sequence(node)))
@@ -236,7 +236,9 @@ m("c12-f9a-revert", "C12", "daemon/runners/meta_runner.py", "        for runner 
 m("c12-shutdown-skips-stop", "C12", "daemon/runners/service.py", "        self._is_shutdown.wait()\n        self._meta_runner.stop()", "        self._is_shutdown.wait()")
 
 # ---- reverts of F12-F14
-m("c18-f12-revert", "C18", "daemon/core/config.py", "                    if merged_node.tag not in self.yaml_constructors:", "                    if False:")
+m("c18-f12-f16-revert", "C18", "daemon/core/config.py", "        self._check_tags(node)\n", "        pass\n")
+m("c18-check-skips-sequences", "C18", "daemon/core/config.py", "                pending.extend((item, False) for item in node.value)", "                pass")
+# (not checking mapping keys up front would be an equivalent change: PyYAML constructs every key through construct_object)
 m("c03-f13-revert", "C03", "daemon/runners/service.py", "            if _service_declaration(cls) is __new_service__:", "            if True:")
 # (F14 has no revert mutant: the lost interrupt shows in about one run of 300 on a loaded machine only; its scenario is kept
 #  under regressions/C02 and was stressed by hand, 480 runs, when the repair was made)
